@@ -12,7 +12,7 @@ R3.close        ncmpio_close: before the file object is freed, each request queu
                 path that found pending requests returns non-zero (NC_EPENDING).
 """
 from absint import ValueDomain, Explorer, State, TOP, NONZERO, ONE, ZERO, Budget, AVal, fin
-from facts import walk, strip, strip_pre, const_value, show, lvalue_key, macro_of, key_str
+from facts import walk, strip, strip_pre, const_value, show, lvalue_key, macro_of, key_str, canon
 from frontend import AnalysisBroken
 import cfg
 import patterns
@@ -296,6 +296,88 @@ def check_close(ctx, prog):
         ctx.ok("R3.close", "ncmpio_close:NC_EPENDING", "paths with pending requests return non-zero")
 
 
+# Leak reports that are infeasible for a reason outside one function, each with the side condition the checker re-tests.
+LEAK_REASONED = {
+    ("stride_flatten", "dimlen<-malloc()"):
+        ("its only caller returns before the call when the request has no elements, so *nblocks == 0 cannot happen",
+         lambda prog: _caller_tests(prog, "stride_flatten", "nelems == 0")),
+    ("hdr_get_NC_dim", "name<-hdr_get_NC_name()"):
+        ("hdr_get_NC_name leaves *namep allocated on failure only when the refill for the name's padding fails; header "
+         "items are 4-byte aligned and the window size is rounded up to X_ALIGN, so the padding never straddles the window",
+         lambda prog: _window_aligned(prog)),
+    ("hdr_get_NC_attr", "name<-hdr_get_NC_name()"): ("as hdr_get_NC_dim", lambda prog: _window_aligned(prog)),
+    ("hdr_get_NC_var", "name<-hdr_get_NC_name()"): ("as hdr_get_NC_dim", lambda prog: _window_aligned(prog)),
+}
+# functions over the release analysis' state budget (see C19): assumed to capture their arguments, not reported on
+LEAK_BUDGET_SKIPS = {"extract_reqs", "get_varm", "igetput_varn", "intra_node_aggregation", "mgetput", "ncmpi_open", "ncmpio__enddef",
+                     "ncmpio_cancel", "ncmpio_igetput_varm", "ncmpio_inq_misc", "ncmpio_put_att", "ncmpio_set_pnetcdf_hints", "put_varm",
+                     "req_aggregation", "req_commit", "utf8proc_normalize_utf32"}
+
+
+def _caller_tests(prog, callee, text):
+    from callgraph import CallGraph
+    import cfg as _cfg
+    cg = CallGraph(prog)
+    sites = cg.callers.get(callee, [])
+    if len(sites) != 1:
+        return False
+    fn, b, i, call = sites[0]
+    for d in _cfg.dominators(fn).get(b.id, ()):
+        c = fn.blocks[d].cond
+        if c is not None and text in canon(c):
+            return True
+    return False
+
+
+def _window_aligned(prog):
+    fn = prog.fns("ncmpio_hdr_get_NC")
+    if not fn:
+        return False
+    for b, i, e in fn[0].elements():
+        if e.get("k") == "asg" and canon(e["a"]).endswith(".chunk"):
+            # PNETCDF_RNDUP(x, X_ALIGN) expands to ((x + 3) / 4) * 4
+            t = show(e["b"])
+            return "PNETCDF_RNDUP" in t or ("/ 4" in canon(e["b"]) and "* 4" in canon(e["b"]))
+    return False
+
+
+def check_leaks(ctx, prog):
+    from rules import r3leak
+    from callgraph import CallGraph
+    ctx.rule("R3.leak", "every heap object allocated in a function is released, returned or stored on every path (allocation and "
+             "MPI calls assumed to succeed), for the functions reachable from the public API")
+    cg = CallGraph(prog)
+    roots = [fn.name for fn in prog.all_functions() if fn.name.startswith("ncmpi_") and not fn.static]
+    reach = cg.reach(roots)
+    ctx.require(len(roots) >= 500 and len(reach) >= 900, "R3.leak: API roots / reachable functions: %d / %d" % (len(roots), len(reach)))
+    sub = _Sub(ctx)
+    n, summaries, skipped, extra = r3leak.check(sub, prog, "R3.leak", lambda fn: fn.name in reach, budget=20000,
+                                                  known_skips=LEAK_BUDGET_SKIPS)
+    ctx.require(not extra, "R3.leak: %s exceed(s) the state budget and would be silently excluded" % ", ".join(extra))
+    ctx.require(n >= 80, "R3.leak: only %d allocating functions analysed" % n)
+    for f in sub.held:
+        key = (f["function"], f["site"])
+        if key in LEAK_REASONED:
+            why, cond = LEAK_REASONED[key]
+            if cond(prog):
+                ctx.ok("R3.leak", "%s:%s" % key, "reasoned: " + why, nontrivial=False)
+                continue
+        ctx.fail("R3.leak", f["function"], f["site"], f["what"], fn=f["fn"], line=f["line"], inst=f["inst"], detail=f["detail"])
+
+
+class _Sub:
+    """collects the leak reports so that the reasoned ones can be filtered; everything else is forwarded"""
+    def __init__(self, ctx):
+        self.ctx = ctx
+        self.held = []
+
+    def __getattr__(self, a):
+        return getattr(self.ctx, a)
+
+    def fail(self, rule, function, site, what, fn=None, line=0, detail=None, inst=None):
+        self.held.append({"function": function, "site": site, "what": what, "fn": fn, "line": line, "detail": detail, "inst": inst})
+
+
 def run(ctx):
     ctx.rule("R3.id.contract", "PNC_check_id returns NC_NOERR only with *pncp loaded from a slot tested non-NULL")
     ctx.rule("R3.id.use", "callers use the PNC pointer only after testing PNC_check_id's result == NC_NOERR")
@@ -308,3 +390,4 @@ def run(ctx):
     check_uses(ctx, prog)
     check_slot(ctx, prog)
     check_close(ctx, prog)
+    check_leaks(ctx, prog)
